@@ -325,8 +325,8 @@ def _merge(res, st, case):
 
 
 def run_reentrant(case, st):
-    """Callbacks that subscribe / unsubscribe while a frame is being delivered: the frame still reaches exactly the
-    callbacks that were subscribed when it was received, once each, in subscription order."""
+    """Callbacks that subscribe / unsubscribe while a frame is being delivered: the frame reaches the callbacks that
+    were subscribed when it was received and still are when their turn comes, once each, in subscription order."""
     import itertools
     import canopen
     # ("nested": the callback makes the library dispatch another frame - e.g. it sends on a looped-back interface -
@@ -380,14 +380,29 @@ def run_reentrant(case, st):
             except Exception as e:  # noqa: BLE001
                 st.violation(f"C10:reentrant:raises:{type(e).__name__}", rc, "frame delivered", repr(e)[:100])
                 continue
-            want = []
+            # expected: the callbacks subscribed when the frame was received, in subscription order, except those that
+            # an earlier callback of this very frame has unsubscribed before their turn (unsubscribe() has returned:
+            # their owner may be gone); callbacks subscribed during the dispatch do not get this frame
+            want, alive = [], set(range(k))
             for i in range(k):
+                if i not in alive:
+                    continue
                 want.append(i)
-                if combo[i].startswith("nested"):
+                act = combo[i]
+                if act.startswith("nested"):
                     want.append("n")
+                    act = act[7:] or "none"
+                if act == "unsub-self":
+                    alive.discard(i)
+                elif act == "unsub-next":
+                    alive.discard(i + 1)
+                elif act == "unsub-prev":
+                    alive.discard(i - 1)
+                elif act == "unsub-all-others":
+                    alive &= {i}
             if log != want:
                 kind = "skipped" if len(log) < len(want) else ("delivered-to-late-subscriber" if "new" in log else "order")
-                st.violation(f"C10:reentrant:{kind}", rc, want, log)
+                st.violation(f"C10:reentrant:{kind}", rc, list(want), list(log))
             else:
                 st.outcome("reentrant ok")
             # the next frame reaches exactly the callbacks subscribed now
